@@ -9,8 +9,10 @@
         (difference of the hashData tables)   -> [XReg];
       - DELETE /aurora/{root}: status, the order in which the closure removed
         the chunks, the dump after the handler returned   -> [XDelete];
-      - both phases of a synchronous collection run (VerifCollectGarbage with
-        the REAL chunkinfo behind db.discover)  -> [XGcBegin]/[XGcEnd];
+      - a synchronous collection run (VerifCollectGarbage with the REAL chunkinfo behind
+        db.discover, through a wrapper that sees every DelFile call): candidate selection
+        [XGcBegin], one [XGcStep] per DelFile call, the final section [XGcEnd]; operations
+        injected after selection, before a DelFile call and after it appear in between;
 
     and after every step the index dump (as a difference to the previous
     one) and the pyramid tables of chunkinfo (hashData, reference counts).
@@ -40,6 +42,7 @@ Inductive gcop :=
 | XReg (root : N)
 | XDelete (root : N) (order : nl)
 | XGcBegin (target batchsz : N)
+| XGcStep (root : N)                 (* one DelFile(root, closure) call of the run has returned *)
 | XGcEnd.
 Inductive gcobs := YLs (q : cobs) | YDone | YDel (ok : bool).
 
@@ -57,13 +60,14 @@ Section Tr.
     | CC r l e p t => ainsert cmp_bytes (A r) {| f_leaves := map A (nl_list l); f_edges := map A (nl_list e); f_probe := map A (nl_list p) |} (tr_cat t)
     end.
 
-  Definition tr_gop (o : gcop) : gop :=
+  Definition tr_gop (o : gcop) : gop2 :=
     match o with
-    | XLs o' => GLs (tr_op univ o')
-    | XReg r => GReg (A r)
-    | XDelete r order => GDelete (A r) (map A (nl_list order))
-    | XGcBegin t b => GGcBegin t b
-    | XGcEnd => GGcEnd
+    | XLs o' => H1 (GLs (tr_op univ o'))
+    | XReg r => H1 (GReg (A r))
+    | XDelete r order => H1 (GDelete (A r) (map A (nl_list order)))
+    | XGcBegin t b => H1 (GGcBegin t b)
+    | XGcStep r => HGcStep (A r)
+    | XGcEnd => H1 GGcEnd
     end.
 
   Definition up_data (m : list (addr * dentry)) (r : rows) := fold_left (fun m kv => ainsert cmp_bytes (fst kv) (snd kv) m) (r_data univ r) m.
@@ -116,16 +120,16 @@ Definition ci_eqb (m o : cistate) : bool :=
 
 (** index of the first step on which model and implementation disagree
     (with the model's observation, localstore state and chunkinfo tables there) *)
-Fixpoint gfirst_bad (cat : catalogue) (po : addr -> N) (cap : N) (univ : list addr) (x : sys) (ob : sys)
+Fixpoint gfirst_bad (cat : catalogue) (po : addr -> N) (cap : N) (univ : list addr) (x : sys) (pg : gcprog) (ob : sys)
          (st : gsteps) (i : N) : option (N * gvobs * sys) :=
   match st with
   | GSE => None
   | GSC o q d c rest =>
-      let '(x', r) := gstep cat po cap x (tr_gop univ o) in
+      let '(x', pg', r) := gstep2 cat po cap (x, pg) (tr_gop univ o) in
       let ob' := {| ls := tr_gdump univ (ls ob) d;
                     ci := match c with CiSkip => ci x' | _ => tr_cidump univ (ci ob) c end |} in
       if gvobs_eqb (gv_model r) (gv_obs q) && state_eqb (ls x') (ls ob') && ci_eqb (ci x') (ci ob')
-      then gfirst_bad cat po cap univ x' ob' rest (i + 1)
+      then gfirst_bad cat po cap univ x' pg' ob' rest (i + 1)
       else Some (i, gv_model r, x')
   end.
 
@@ -133,7 +137,7 @@ Definition run_case (c : case) :=
   match c with
   | CSys base cap univ cat st =>
       let u := univ_list univ in
-      gfirst_bad (tr_cat u cat) (po_of (nl_list base)) cap u sys_init sys_init st 0
+      gfirst_bad (tr_cat u cat) (po_of (nl_list base)) cap u sys_init prog0 sys_init st 0
   end.
 Definition check_case (c : case) : bool := match run_case c with None => true | Some _ => false end.
 Definition explain_case (c : case) := run_case c.
